@@ -159,17 +159,75 @@ def combine_disambiguator(repo):
   """The function that renames the variables introduced by a combine (it
   formats '... # disambiguated with <fresh number>' with AllocateVar): today a
   closure of DisambiguateCombineVariables; the work may equally be done by a
-  loop in DisambiguateCombineVariables itself or by a module-level function."""
+  loop in DisambiguateCombineVariables itself or by a module-level function.
+  Located by the format text alone: whether the number comes from the
+  allocator is a rule (fresh_combine_names), not part of the anchor."""
   m = repo.by_name('rule_translate')
   hits = []
   for q, fi in m.funcs.items():
     has_text = any(isinstance(c, ast.Constant) and isinstance(c.value, str) and
                    'disambiguated with' in c.value and '%' in c.value for c in walk_local(fi.node))
-    has_alloc = any(isinstance(c, ast.Call) and call_tail(c) == 'AllocateVar'
-                    for c in walk_local(fi.node))
-    if has_text and has_alloc:
+    if has_text:
       hits.append(fi)
   if len(hits) != 1:
     raise AnalysisError('rule_translate: the combine-variable disambiguator is not recognised '
                         '(%d candidates)' % len(hits))
   return hits[0]
+
+
+def fresh_combine_names(chk, rid):
+  """The name a combine-local variable is renamed to is fresh in the whole
+  compilation: it carries a number handed out by the execution-level
+  NamesAllocator.  Names derived from the rule alone (predicate, position) are
+  equal for two instantiations of the same injectable rule: injected into each
+  other, the inner local variable is captured by the enclosing sub-query."""
+  repo = chk.repo
+  fi = combine_disambiguator(repo)
+  fresh = False
+  for x in walk_local(fi.node):
+    fmt = None
+    if isinstance(x, ast.BinOp) and isinstance(x.op, ast.Mod) and \
+        'disambiguated with' in (const_str(x.left) or ''):
+      fmt = x.right
+    elif isinstance(x, ast.JoinedStr) and any(
+        isinstance(v, ast.Constant) and 'disambiguated with' in str(v.value) for v in x.values):
+      fmt = x
+    elif isinstance(x, ast.Call) and call_tail(x) == 'format' and isinstance(x.func, ast.Attribute) \
+        and 'disambiguated with' in (const_str(x.func.value) or ''):
+      fmt = ast.Tuple(elts=list(x.args) + [k.value for k in x.keywords], ctx=ast.Load())
+    if fmt is None:
+      continue
+    view = FnView.of(repo, fi)
+    text = norm(view.expand(fmt), 2000)
+    if 'AllocateVar(' in text:
+      fresh = True
+  chk.ob(rid, fresh, None,
+         'combine-local variables are renamed with a number from the execution-level allocator',
+         'the new name of a combine-local variable does not come from '
+         'NamesAllocator.AllocateVar: two copies of the same rule give their '
+         'locals the same name, and when one copy is injected into the other the '
+         'inner variable is captured by the outer sub-query', fi=fi)
+
+
+def inclusion_is_unnesting(chk, rid):
+  """`x in [a, b]` equals the alternatives x == a | x == b: one row per list
+  position.  The translation of an inclusion is therefore an unnesting (a join
+  with the list), except for the declared Container(...) form, which is a
+  membership constraint by definition."""
+  repo = chk.repo
+  ei = FnView(repo, 'rule_translate.ExtractInclusionStructure')
+  unn = [n for n, c in ei.all_calls() if call_tail(c) == 'append' and
+         (receiver(c) or '').endswith('unnestings')]
+  declared = set()
+  for n in ei.cfg.stmt_nodes():
+    for e, val in ei.guards(n):
+      if val and any(const_str(c) == 'Container' for c in ast.walk(e)):
+        declared.add(n)
+  if not unn:
+    raise AnalysisError('ExtractInclusionStructure: unnesting not found')
+  chk.ob(rid, ei.cfg.must_pass_before(ei.cfg.exit, set(unn) | declared), None,
+         'an inclusion is translated as an unnesting of the list on every path '
+         '(only Container(..) lists are membership tests)',
+         'some inclusions are turned into a membership constraint instead of a '
+         'join with the list: `x in [a, a]` then yields one row where the two '
+         'alternatives x == a | x == a yield two', fi=ei.fi)
